@@ -33,9 +33,9 @@ func RefOf(hashName string, data []byte) blob.Ref {
 
 // GenOpts tunes a universe.
 type GenOpts struct {
-	N        int
-	MaxSize  int  // upper bound for "large" members (default 64 KiB+1)
-	Hashes   bool // mix sha1 / sha256 refs in
+	N          int
+	MaxSize    int  // upper bound for "large" members (default 64 KiB+1)
+	Hashes     bool // mix sha1 / sha256 refs in
 	OnlySHA224 bool
 }
 
@@ -113,4 +113,34 @@ func FileBlobs(name string, content []byte) (fileRef blob.Ref, blobs []Blob, err
 	}
 	blobs = append(blobs, last)
 	return
+}
+
+// SchemaCap is schema.MaxSchemaBlobSize: blobs above it are never schema blobs, and code that
+// sniffs a blob for its type (cond's isSchema rule, the index) buffers at most SchemaCap+1 bytes.
+const SchemaCap = schema.MaxSchemaBlobSize
+
+// BigBlob returns a blob of exactly size bytes.  kind "random" = random bytes; "json" = a blob that
+// starts like a valid schema blob (camliVersion/camliType first) and is padded inside a string
+// member, so a sniffer has to read on to learn that it is too large to be one; "zeros".
+// Hash function as in Universe (name "" = sha224).
+func BigBlob(rng *rand.Rand, size int, kind, hashName string) Blob {
+	data := make([]byte, size)
+	switch kind {
+	case "json":
+		head := fmt.Sprintf("{\"camliVersion\": 1,\n  \"camliType\": \"bytes\",\n  \"verifNonce\": %d,\n  \"pad\": \"", rng.Int63())
+		tail := "\"\n}"
+		if size < len(head)+len(tail) {
+			rng.Read(data)
+			break
+		}
+		for i := range data {
+			data[i] = 'a' + byte(i%23)
+		}
+		copy(data, head)
+		copy(data[size-len(tail):], tail)
+	case "zeros":
+	default:
+		rng.Read(data)
+	}
+	return Blob{Ref: RefOf(hashName, data), Data: data}
 }
